@@ -93,28 +93,31 @@ func (e *ElemData) MarshalJSON() ([]byte, error) {
 		}
 		return json.Marshal(elem{ID: e.ID, Source: e.Source, Target: e.Target, Parent: e.Parent})
 	}
-	e.Attributes["id"] = e.ID
+	// The receiver's map is not used to build the JSON object since
+	// that would overwrite and then remove attributes with the names
+	// of the ID, source, target and parent fields, and is a data race
+	// when the same value is marshaled concurrently.
+	attrs := copyAttributes(e.Attributes, 4)
+	attrs["id"] = e.ID
 	if e.Source != "" {
-		e.Attributes["source"] = e.Source
+		attrs["source"] = e.Source
 	}
 	if e.Target != "" {
-		e.Attributes["target"] = e.Target
+		attrs["target"] = e.Target
 	}
 	if e.Parent != "" {
-		e.Attributes["parent"] = e.Parent
+		attrs["parent"] = e.Parent
 	}
-	b, err := json.Marshal(e.Attributes)
-	delete(e.Attributes, "id")
-	if e.Source != "" {
-		delete(e.Attributes, "source")
+	return json.Marshal(attrs)
+}
+
+// copyAttributes returns a copy of attrs with room for extra more elements.
+func copyAttributes(attrs map[string]interface{}, extra int) map[string]interface{} {
+	c := make(map[string]interface{}, len(attrs)+extra)
+	for k, v := range attrs {
+		c[k] = v
 	}
-	if e.Target != "" {
-		delete(e.Attributes, "target")
-	}
-	if e.Parent != "" {
-		delete(e.Attributes, "parent")
-	}
-	return b, err
+	return c
 }
 
 // UnmarshalJSON implements the json.Unmarshaler interface.
@@ -198,12 +201,10 @@ func (n *NodeData) MarshalJSON() ([]byte, error) {
 		}
 		return json.Marshal(node{ID: n.ID, Parent: n.Parent})
 	}
-	n.Attributes["id"] = n.ID
-	n.Attributes["parent"] = n.Parent
-	b, err := json.Marshal(n.Attributes)
-	delete(n.Attributes, "id")
-	delete(n.Attributes, "parent")
-	return b, err
+	attrs := copyAttributes(n.Attributes, 2)
+	attrs["id"] = n.ID
+	attrs["parent"] = n.Parent
+	return json.Marshal(attrs)
 }
 
 // UnmarshalJSON implements the json.Unmarshaler interface.
@@ -262,14 +263,11 @@ func (e *EdgeData) MarshalJSON() ([]byte, error) {
 		}
 		return json.Marshal(edge{ID: e.ID, Source: e.Source, Target: e.Target})
 	}
-	e.Attributes["id"] = e.ID
-	e.Attributes["source"] = e.Source
-	e.Attributes["target"] = e.Target
-	b, err := json.Marshal(e.Attributes)
-	delete(e.Attributes, "id")
-	delete(e.Attributes, "source")
-	delete(e.Attributes, "target")
-	return b, err
+	attrs := copyAttributes(e.Attributes, 3)
+	attrs["id"] = e.ID
+	attrs["source"] = e.Source
+	attrs["target"] = e.Target
+	return json.Marshal(attrs)
 }
 
 // UnmarshalJSON implements the json.Unmarshaler interface.
